@@ -208,6 +208,8 @@ def run(ck, F):
             import_cycles += 1
             continue
         remaining = {c: set() for c in comp}
+        unguarded = {c: set() for c in comp}    # every intra-cycle edge without a visited guard in front of it
+        restarts = []
         n_edges = 0
         has_descent = False
         # each member with its private helpers and the closures it calls directly inlined (calls to members of the cycle stay calls):
@@ -237,24 +239,41 @@ def run(ck, F):
                 n = seen.get(callee, 0)
                 seen[callee] = n + 1
                 site = B.term(bb).get("sp")
+                # a visited guard in front of the call (membership test + push of the same key) bounds every cycle through this edge,
+                # whatever node the edge passes on: such an edge is cut out of the graph
+                g_ok, g_why = restart_guard(B, bb)
                 if kind == "descent":
                     has_descent = True
+                    if not g_ok:
+                        unguarded[c].add(callee)
                     ck.ok("R2", f"edge:{callee}#{n}:descent", site, f"{c} -> {callee}: strict descent ({detail})", fn=c)
                 elif kind == "restart":
-                    ok, why = restart_guard(B, bb)
-                    if ok:
-                        ck.ok("R2", f"edge:{callee}#{n}:restart-guarded", site, f"{c} -> {callee}: restart from {detail}, {why}", fn=c)
+                    if g_ok:
+                        ck.ok("R2", f"edge:{callee}#{n}:restart-guarded", site, f"{c} -> {callee}: restart from {detail}, {g_why}", fn=c)
+                    else:
+                        unguarded[c].add(callee)
+                        restarts.append((c, callee, n, site, detail, g_why))
+                elif kind in ("same", "no-node"):
+                    if g_ok:
+                        ck.ok("R2", f"edge:{callee}#{n}:{kind}-guarded", site, f"{c} -> {callee}: {kind} node, {g_why}", fn=c)
                     else:
                         remaining[c].add(callee)
-                        ck.violation("R2", f"edge:{callee}#{n}:restart", site,
-                                     f"{c} -> {callee} re-enters the conversion on a node re-derived via {detail} with no visited guard ({why}): "
-                                     f"cyclic definitions recurse without bound", fn=c)
-                elif kind in ("same", "no-node"):
-                    remaining[c].add(callee)
-                    ck.ok("R2", f"edge:{callee}#{n}:{kind}", site, f"{c} -> {callee}: {kind} node (neutral)", fn=c)
+                        unguarded[c].add(callee)
+                        ck.ok("R2", f"edge:{callee}#{n}:{kind}", site, f"{c} -> {callee}: {kind} node (neutral)", fn=c)
                 else:
                     remaining[c].add(callee)
+                    unguarded[c].add(callee)
                     ck.undecided("R2", f"edge:{callee}#{n}:unclassified", site, f"{c} -> {callee}: {detail}", fn=c)
+        # a restart (the conversion re-entered on a node found again in the tree) resets the descent: it is harmless only if every
+        # cycle through it passes a guarded edge, i.e. if it lies on no cycle of the unguarded edges
+        for (c, callee, n, site, detail, why) in restarts:
+            if c in scans.reachable(unguarded, [callee]):
+                ck.violation("R2", f"edge:{callee}#{n}:restart", site,
+                             f"{c} -> {callee} re-enters the conversion on a node re-derived via {detail} with no visited guard ({why}) here or "
+                             f"anywhere on the way back to this call: cyclic definitions recurse without bound", fn=c)
+            else:
+                ck.ok("R2", f"edge:{callee}#{n}:restart-guarded-downstream", site,
+                      f"{c} -> {callee}: restart from {detail}; every way back to this call passes a visited guard", fn=c)
         ck.count("R2:intra-cycle call edges", n_edges)
         # the graph of neutral edges must be acyclic (every cycle passes a strict descent or a guarded restart)
         sub = [x for x in C11.sccs(remaining, cs) if len(x) > 1 or x[0] in remaining.get(x[0], ())]
